@@ -45,6 +45,93 @@ type LimitCfg struct {
 	WinMax       int64  `json:"win_max,omitempty"`
 	WinThreshold int64  `json:"win_threshold,omitempty"`
 	JitterSeed   int64  `json:"jitter_seed"`
+	// Ctor: "" = the long constructor; "default" = NewDefaultAIMDLimit / NewDefaultVegasLimit / NewDefaultGradient2Limit
+	// (every parameter is then the library's own choice); "default_limit" = NewDefaultVegasLimitWithLimit(Initial).
+	Ctor string `json:"ctor,omitempty"`
+	// Unset: parameters handed to the long constructor as their documented "use the default" value
+	// (initial, min, max, smoothing, tol, lw). The harness assumes nothing about the defaults chosen.
+	Unset []string `json:"unset,omitempty"`
+}
+
+// known reports whether the harness knows the effective value of a parameter (it was passed explicitly).
+func (c LimitCfg) known(param string) bool {
+	switch c.Ctor {
+	case "default":
+		return false
+	case "default_limit":
+		return param == "initial"
+	}
+	for _, u := range c.Unset {
+		if u == param {
+			return false
+		}
+	}
+	return true
+}
+
+// arg returns the value handed to the long constructor for an int parameter: the configured one, or the
+// documented "unset" sentinel.
+func (c LimitCfg) arg(param string, v int) int {
+	if c.known(param) {
+		return v
+	}
+	switch param {
+	case "max":
+		return -1
+	case "lw":
+		return -1
+	}
+	return 0
+}
+
+func (c LimitCfg) argF(param string, v float64) float64 {
+	if c.known(param) {
+		return v
+	}
+	return -1
+}
+
+// sanityCeil bounds the estimate where the effective maximum is the library's own default (unknown to the
+// harness): far above any default a maintainer would pick, far below what a broken update produces.
+const sanityCeil = 10_000_000
+
+// genUnset lets some parameters of a generated configuration fall back to the library defaults, or
+// switches to one of the short constructors.
+func genUnset(t *rapid.T, c *LimitCfg) { genUnsetOpt(t, c, false) }
+
+// genUnsetSafe never produces a combination the Gradient2 constructor might reject (an unset minimum next to a
+// small explicit maximum), so that buildLimit cannot fail.
+func genUnsetSafe(t *rapid.T, c *LimitCfg) { genUnsetOpt(t, c, true) }
+
+func genUnsetOpt(t *rapid.T, c *LimitCfg, safe bool) {
+	switch rapid.IntRange(0, 9).Draw(t, "ctorKind") {
+	case 0:
+		if c.Algo == "aimd" || c.Algo == "vegas" || c.Algo == "gradient2" {
+			c.Ctor = "default"
+		}
+	case 1:
+		if c.Algo == "vegas" {
+			c.Ctor = "default_limit"
+		}
+	case 2, 3:
+		var cand []string
+		switch c.Algo {
+		case "vegas":
+			cand = []string{"initial", "max", "smoothing"}
+		case "gradient":
+			cand = []string{"initial", "min", "max", "smoothing", "tol"}
+		case "gradient2":
+			cand = []string{"initial", "min", "max", "smoothing", "lw"}
+		}
+		for _, p := range cand {
+			if rapid.IntRange(0, 2).Draw(t, "unset:"+p) == 0 {
+				c.Unset = append(c.Unset, p)
+			}
+		}
+		if safe && c.Algo == "gradient2" && !c.known("min") && c.known("max") {
+			c.Unset = append(c.Unset, "max")
+		}
+	}
 }
 
 // Sample is one OnSample call.
@@ -187,12 +274,34 @@ func (t *tapLimit) OnSample(start, rtt int64, inf int, drop bool) {
 // buildLimit constructs the configured limit. The library's global jitter source is re-seeded
 // first (harness go.mod has godebug randseednop=0), so construction + samples are reproducible.
 func buildLimit(c LimitCfg, reg core.MetricRegistry) built {
+	b, err := tryBuildLimit(c, reg)
+	if err != nil {
+		panic(err)
+	}
+	return b
+}
+
+// tryBuildLimit is buildLimit for configurations whose effective values are partly the library's own
+// defaults: the constructor may then reject the combination (e.g. a minimum above the default maximum).
+func tryBuildLimit(c LimitCfg, reg core.MetricRegistry) (built, error) {
 	rand.Seed(c.JitterSeed)
 	var inner core.Limit
 	switch c.Algo {
 	case "aimd":
+		if c.Ctor == "default" {
+			inner = limit.NewDefaultAIMDLimit("t", reg)
+			break
+		}
 		inner = limit.NewAIMDLimit("t", c.Initial, c.Backoff, c.IncreaseBy, reg)
 	case "vegas":
+		if c.Ctor == "default" {
+			inner = limit.NewDefaultVegasLimit("t", nil, reg)
+			break
+		}
+		if c.Ctor == "default_limit" {
+			inner = limit.NewDefaultVegasLimitWithLimit("t", c.Initial, nil, reg)
+			break
+		}
 		var noLoad core.MeasurementInterface
 		switch c.NoLoad {
 		case "single":
@@ -200,13 +309,17 @@ func buildLimit(c LimitCfg, reg core.MetricRegistry) built {
 		case "expavg":
 			noLoad = measurements.NewExponentialAverageMeasurement(20, 3)
 		}
-		inner = limit.NewVegasLimitWithRegistry("t", c.Initial, noLoad, c.Max, c.Smoothing, vegasIntFn(c.VAlpha), vegasIntFn(c.VBeta), vegasIntFn(c.VThr), vegasFloatFn(c.VInc), vegasFloatFn(c.VDec), c.ProbeMult, nil, reg)
+		inner = limit.NewVegasLimitWithRegistry("t", c.arg("initial", c.Initial), noLoad, c.arg("max", c.Max), c.argF("smoothing", c.Smoothing), vegasIntFn(c.VAlpha), vegasIntFn(c.VBeta), vegasIntFn(c.VThr), vegasFloatFn(c.VInc), vegasFloatFn(c.VDec), c.ProbeMult, nil, reg)
 	case "gradient":
-		inner = limit.NewGradientLimitWithRegistry("t", c.Initial, c.Min, c.Max, c.Smoothing, queueFunc(c.Queue), c.RTTTol, c.ProbeInterval, nil, reg)
+		inner = limit.NewGradientLimitWithRegistry("t", c.arg("initial", c.Initial), c.arg("min", c.Min), c.arg("max", c.Max), c.argF("smoothing", c.Smoothing), queueFunc(c.Queue), c.argF("tol", c.RTTTol), c.ProbeInterval, nil, reg)
 	case "gradient2":
-		g, err := limit.NewGradient2Limit("t", c.Initial, c.Max, c.Min, queueFunc(c.Queue), c.Smoothing, c.LongWindow, nil, reg)
+		if c.Ctor == "default" {
+			inner = limit.NewDefaultGradient2Limit("t", nil, reg)
+			break
+		}
+		g, err := limit.NewGradient2Limit("t", c.arg("initial", c.Initial), c.arg("max", c.Max), c.arg("min", c.Min), queueFunc(c.Queue), c.argF("smoothing", c.Smoothing), c.arg("lw", c.LongWindow), nil, reg)
 		if err != nil {
-			panic(err)
+			return built{}, err
 		}
 		inner = g
 	case "settable":
@@ -236,7 +349,7 @@ func buildLimit(c LimitCfg, reg core.MetricRegistry) built {
 			outer = limit.NewTracedLimit(outer, limit.NoopLimitLogger{})
 		}
 	}
-	return built{Outer: outer, Inner: inner, Tap: tap}
+	return built{Outer: outer, Inner: inner, Tap: tap}, nil
 }
 
 // debugDiscardLogger: a limit.Logger with debug output enabled; the formatted text is built and dropped.
@@ -256,7 +369,9 @@ func (b built) noLoad() (int64, bool) {
 func (c LimitCfg) floorOf() int {
 	switch c.Algo {
 	case "gradient", "gradient2":
-		return c.Min
+		if c.known("min") {
+			return c.Min
+		}
 	}
 	return 1
 }
